@@ -45,7 +45,7 @@ RULE = ("cells: family {Gaussian cov=1/s, prec=s, prec=s*ones(m), legacy-only co
         "JointDistribution conditioned as Gibbs does, with a linear forward model} x {shape, rate}; dims 2..6 (2-d: 2x2, 3x3), dyadic data; "
         "validation: 40+ dependences (identity/reciprocal, monomials, affine maps at and around the probe tolerances, polynomials vanishing on "
         "subsets of the probe points, array-valued, other mutable variables, several occurrences, wrong name, non-scalar Gamma, other priors/"
-        "likelihoods, non-Posterior, other presets, LMRF) x 4 constructors; probes called directly; ConjugateApprox shape/rate; Direct on 7 target "
+        "likelihoods, non-Posterior, other presets, LMRF; Gamma priors of dimension 1 and k declared in 12 styles -- parameter lengths, geometry=k, Geometry object, mixed scalar/vector shape and rate, length-1 arrays/lists, numpy and Python-int scalars -- for every pair class) x 4 constructors; probes called directly; ConjugateApprox shape/rate; Direct on 7 target "
         "families. distinct = distinct (cell, inputs); trivial = none")
 
 SQRT_EPS = Fraction(1, 2 ** 26)
@@ -109,6 +109,8 @@ def mk_callable(dep, argname):
     entries, shape = dep["entries"], dep.get("shape")
 
     def _f(s):
+        if isinstance(s, np.ndarray) and s.size > 1 and shape is None:      # a lambda like `lambda s: 1/s` acts elementwise
+            return np.array([d_float(entries[0], float(si)) for si in np.ravel(s)])
         s = float(np.ravel(s)[0]) if isinstance(s, np.ndarray) else float(s)
         if shape is None:
             return d_float(entries[0], s)
@@ -129,6 +131,33 @@ def array_dep(es, shape):
 # ------------------------------------------------------------------------------------------------------
 def fvec(l):
     return np.array([float(Fraction(x)) for x in l], dtype=float)
+
+
+GAMMA_DECLS_DIM1 = ["scalars", "len1_arrays", "np_scalar", "py_int", "geometry_1", "list1"]
+GAMMA_DECLS_DIMK = ["arrays", "geometry_int", "geometry_obj", "shape_vec", "rate_vec", "len1_geometry_k"]
+
+
+def build_gamma(pr, pname):
+    """a Gamma prior of dimension pr['dim'] declared in the style pr['decl'] (the dimension of a cuqi distribution can come
+    from the length of its parameters or from its geometry)"""
+    import cuqi
+    from cuqi.distribution import Gamma
+    a, b, k = float(Fraction(pr["alpha"])), float(Fraction(pr["beta"])), pr.get("dim", 1)
+    decl = pr.get("decl") or ("scalars" if k == 1 else "arrays")
+    if decl == "scalars": g = Gamma(a, b, name=pname)
+    elif decl == "len1_arrays": g = Gamma(np.array([a]), np.array([b]), name=pname)
+    elif decl == "np_scalar": g = Gamma(np.float64(a), np.float64(b), name=pname)
+    elif decl == "py_int": g = Gamma(int(a), int(b), name=pname)
+    elif decl == "geometry_1": g = Gamma(a, b, geometry=1, name=pname)
+    elif decl == "list1": g = Gamma([a], [b], name=pname)
+    elif decl == "arrays": g = Gamma(np.full(k, a), np.full(k, b), name=pname)
+    elif decl == "geometry_int": g = Gamma(a, b, geometry=k, name=pname)
+    elif decl == "geometry_obj": g = Gamma(a, b, geometry=cuqi.geometry.Continuous1D(k), name=pname)
+    elif decl == "shape_vec": g = Gamma(np.full(k, a), b, name=pname)
+    elif decl == "rate_vec": g = Gamma(a, np.full(k, b), name=pname)
+    elif decl == "len1_geometry_k": g = Gamma(np.array([a]), np.array([b]), geometry=k, name=pname)
+    else: raise ValueError(decl)
+    return g
 
 
 def build_target(spec):
@@ -173,10 +202,7 @@ def build_target(spec):
             raise ValueError(fam)
         pr = spec["prior"]
         if pr["kind"] == "gamma":
-            if pr.get("dim", 1) == 1:
-                prior = Gamma(float(Fraction(pr["alpha"])), float(Fraction(pr["beta"])), name=pname)
-            else:
-                prior = Gamma(np.full(pr["dim"], float(Fraction(pr["alpha"]))), np.full(pr["dim"], float(Fraction(pr["beta"]))), name=pname)
+            prior = build_gamma(pr, pname)
         elif pr["kind"] == "gaussian":
             prior = Gaussian(1.0, 1.0, name=pname)
         elif pr["kind"] == "lognormal":
@@ -511,6 +537,23 @@ def gen_sample_specs(ctx):
                     else:
                         spec["mean"] = vec(m)
                     out.append((spec, iface, "gaussian/%s/%s/%s" % (form, route, iface)))
+    # one-dimensional Gamma priors in every declaration style; data of length 1
+    for decl in GAMMA_DECLS_DIM1:
+        for iface in ["exp", "legacy"]:
+            for form, var, dep in [("cov_recip", "cov", scalar_dep(Inv(V()))), ("prec_id", "prec", scalar_dep(V()))]:
+                m = 1 if form == "cov_recip" else rng.randint(2, 5)
+                pr = prior()
+                pr["decl"] = decl
+                if decl == "py_int":
+                    pr["alpha"], pr["beta"] = str(rng.randint(1, 4)), str(rng.randint(1, 3))
+                out.append(({"family": "gaussian", "m": m, "prior": pr, "route": "direct", "var": var, "dep": dep, "data": vec(m), "mean": vec(m)},
+                            iface, "gaussian/%s/prior-decl:%s/%s" % (form, decl, iface)))
+            pr = prior(); pr["decl"] = decl
+            if decl == "py_int":
+                pr["alpha"], pr["beta"] = "3", "2"
+            m = rng.randint(2, 5)
+            out.append(({"family": "gmrf", "m": m, "N": None, "two_d": False, "bc": "zero", "order": 1, "var": "prec", "dep": scalar_dep(V()),
+                         "prior": pr, "route": "direct", "data": vec(m), "mean": [str(Fraction(0))] * m}, iface, "gmrf/zero/o1/prior-decl:%s/%s" % (decl, iface)))
     # GMRF
     for bc in ["zero", "periodic", "neumann"]:
         for order in [0, 1, 2]:
@@ -667,6 +710,35 @@ def passes_documented_probe(spec):
     return len(ent) == 1 and all(abs(d_frac(ent[0], x) - F(1, x)) <= F(1, 10 ** 9) * max(abs(d_frac(ent[0], x)), F(1, x)) for x in (1, 10, 100))
 
 
+def nonscalar_oracle(target, spec, iface, sampler):
+    """declared dim != 1 and the constructor accepted: the property requires a refusal.  Where the target's logd can be
+    evaluated, show what is wrong with the draw: fit the conditional of each component from the target's own logd
+    (others held at 1) and compare with the single Gamma the sampler draws from."""
+    k = spec["prior"]["dim"]
+    detail = "a Gamma prior of dimension %d (declared as %s) was accepted" % (k, spec["prior"].get("decl", "arrays"))
+    try:
+        val, ga, ncalls, scripted, acc = draw(iface, sampler)
+    except Exception as e:
+        return detail + "; the draw then raised %s: %s" % (type(e).__name__, str(e)[:80])
+    if ga is None:
+        return detail + "; the draw is not one scalar numpy.random.gamma call"
+    detail += "; it draws %d value(s) from Gamma(shape=%.6g, rate=%.6g)" % (np.size(val), ga[0], 1.0 / ga[1])
+    comps = []
+    try:
+        for i in range(k):
+            def f(t, i=i):
+                sv = np.ones(k); sv[i] = t
+                with QUIET:
+                    return float(np.sum(np.asarray(target.logd(sv), dtype=float)))
+            fv = [f(t) for t in FIT_PTS]
+            d1, d2 = fv[1] - fv[0], fv[2] - fv[1]
+            comps.append(((2 * d1 - d2) / math.log(2.0) + 1, d1 - d2))
+        detail += " while the target's own logd gives component-wise conditionals " + ", ".join("Gamma(%.6g, %.6g)" % c for c in comps)
+    except Exception as e:
+        detail += " (target logd not evaluable along the components: %s)" % type(e).__name__
+    return detail
+
+
 def validation_case(ctx, spec, iface, cell):
     meta = {"op": "validate", "iface": iface, "spec": spec}
     try:
@@ -693,8 +765,16 @@ def validation_case(ctx, spec, iface, cell):
             fail_note = "unrecognised refusal %s: %s" % (type(e).__name__, str(e)[:200])
             return [Case(expr="false", meta=dict(meta, note=fail_note), cell=cell, kind="DECISION")]
         obs = "Reject %s" % kind
+    # property oracle: a Gamma prior that is not one-dimensional must be refused, however it was declared
+    if spec["prior"]["kind"] == "gamma" and spec.get("posterior", True):
+        real_dim = int(target.prior.dim)
+        if real_dim != spec["prior"].get("dim", 1):
+            return [Case(expr="false", meta=dict(meta, note="harness: prior built with dim %d, declared %d" % (real_dim, spec["prior"].get("dim", 1))), cell=cell, kind="DECISION")]
+        if accepted and real_dim != 1:
+            fail = nonscalar_oracle(target, spec, iface, sampler)
+            sig = "%s|nonscalar-gamma-accepted" % site(iface)
     # property oracle: accepted => the draw must be from a Gamma proportional to the target
-    if accepted and iface in ("exp", "legacy") and spec["family"] in ("gaussian", "gmrf") and spec["prior"]["kind"] == "gamma":
+    if fail is None and accepted and spec["prior"].get("dim", 1) == 1 and iface in ("exp", "legacy") and spec["family"] in ("gaussian", "gmrf") and spec["prior"]["kind"] == "gamma":
         try:
             val, ga, ncalls, scripted, acc = draw(iface, sampler)
             if ga is not None:
@@ -757,6 +837,24 @@ def gen_validation_specs(ctx):
         out.append((gspec("reggaussian", "prec", idd, preset="box"), iface, "validate/preset-box/" + iface))
         out.append((gspec("reggaussian", "cov", rec, preset="box", prior=base_prior(dim=2)), iface, "validate/preset-box-dim2/" + iface))
         out.append((gspec("reggmrf", "prec", scalar_dep(Mul(Cn(2), V()))), iface, "validate/reggmrf-2s/" + iface))
+    # the Gamma prior's dimension, by declaration style (parameter lengths vs geometry) x pair class x interface
+    pairs = [("gaussian", "cov", rec, ["exp", "legacy"]), ("gaussian", "prec", idd, ["exp", "legacy"]), ("gmrf", "prec", idd, ["exp", "legacy"]),
+             ("reggaussian", "prec", idd, ["exp", "legacy"]), ("reggaussian", "cov", rec, ["exp", "legacy"]), ("reggmrf", "prec", idd, ["exp", "legacy"]),
+             ("lmrf", "scale", rec, ["approx", "legacy_approx"])]
+    for fam, var, dep, ifs in pairs:
+        for decl in GAMMA_DECLS_DIM1 + GAMMA_DECLS_DIMK:
+            k = 1 if decl in GAMMA_DECLS_DIM1 else (4 if decl != "rate_vec" else 3)
+            ab = {"alpha": "2", "beta": "1"} if decl == "py_int" else {}
+            for iface in ifs:
+                m = k if k > 1 else 3
+                kw = {"mean": ["0"]} if fam == "lmrf" else {}
+                out.append((gspec(fam, var, dep, m=m, prior=base_prior(dim=k, decl=decl, **ab), **kw), iface,
+                            "validate/gamma-decl/%s-%s/%s/%s" % (fam, var, decl, iface)))
+    # likelihood data of length 1 with the declaration styles of a one-dimensional Gamma
+    for decl in GAMMA_DECLS_DIM1:
+        ab = {"alpha": "2", "beta": "1"} if decl == "py_int" else {}
+        for iface in ["exp", "legacy"]:
+            out.append((gspec("gaussian", "cov", rec, m=1, prior=base_prior(decl=decl, **ab)), iface, "validate/gamma-decl/data-len1/%s/%s" % (decl, iface)))
     out.append((gspec("gaussian", "cov", rec, posterior=False, nonposterior="likdist"), "exp", "validate/non-posterior/exp"))
     out.append((gspec("gaussian", "cov", rec, posterior=False, nonposterior="prior"), "exp", "validate/non-posterior-gamma/exp"))
     # ConjugateApprox
@@ -989,6 +1087,15 @@ def known_witnesses(ctx):
         res["legacy.Conjugate|no-structural-validation"] = (bool(bad), bad or "draw is exact")
     except Exception as e:
         res["legacy.Conjugate|no-structural-validation"] = (False, "refused: %s" % str(e)[:100])
+    # legacy ConjugateApprox accepts a 4-dimensional Gamma declared through its geometry
+    spec = {"family": "lmrf", "m": 4, "var": "scale", "dep": scalar_dep(Inv(V())), "mean": ["0"], "data": ["1", "0", "2", "-1"], "route": "direct",
+            "prior": {"kind": "gamma", "dim": 4, "decl": "geometry_int", "name": "s", "alpha": "3/2", "beta": "1/2"}}
+    try:
+        T = build_target(spec)
+        smp = construct("legacy_approx", T)
+        res["legacy.ConjugateApprox|nonscalar-gamma-accepted"] = (True, nonscalar_oracle(T, spec, "legacy_approx", smp))
+    except Exception as e:
+        res["legacy.ConjugateApprox|nonscalar-gamma-accepted"] = (False, "refused: %s" % str(e)[:100])
     # probe: polynomial equal to the identity at 1, 10, 100 only
     spec = _wit_spec(fam="gaussian", dep=scalar_dep(poly_vanishing([1, 10, 100], Fraction(1, 2 ** 20), square=True)))
     T = build_target(spec)
@@ -1032,6 +1139,14 @@ def oracle(ctx, meta):
             return "the draw is not one numpy.random.gamma call"
         orc = oracle_sample(T, spec, ga[0], 1.0 / ga[1])
         return orc["form_fail"] or orc["shape_fail"] or orc["rate_fail"]
+    if m.get("op") == "validate" and m["spec"]["prior"]["kind"] == "gamma" and m["spec"]["prior"].get("dim", 1) != 1 and m["spec"].get("posterior", True):
+        spec, iface = m["spec"], m["iface"]
+        try:
+            T = build_target(spec)
+            smp = construct(iface, T)
+        except Exception:
+            return None
+        return nonscalar_oracle(T, spec, iface, smp)
     if m.get("op") == "validate":
         spec, iface = m["spec"], m["iface"]
         if iface not in ("exp", "legacy") or spec["family"] not in ("gaussian", "gmrf") or spec["prior"]["kind"] != "gamma":
@@ -1068,6 +1183,9 @@ def replay(ctx, meta):
             print("implementation: refused with %s: %s" % (type(e).__name__, str(e)[:300]))
             return 0
         print("implementation: accepted")
+        if op == "validate" and spec["prior"]["kind"] == "gamma" and spec["prior"].get("dim", 1) != 1:
+            print("oracle         :", nonscalar_oracle(T, spec, iface, smp))
+            return 0
         try:
             val, ga, ncalls, scripted, acc = draw(iface, smp)
         except Exception as e:
